@@ -1,4 +1,4 @@
-\* one model, modules and space deletion: all histories of 3 operations
+\* one model, modules, modelx objects A and A.c, space deletion: all histories of 3 operations
 CONSTANTS
   Models = {"M1"}
   BaseInit = {"M1"}
